@@ -152,6 +152,7 @@ class Observer:
         self.lb = np.asarray(lb, float)
         self.ub = np.asarray(ub, float)
         self.eps_SY = eps_SY
+        self.mutate_args = False
         self.events: list[dict] = []
         self.pts: dict[bytes, int] = {}
         self.arr: list[np.ndarray] = [None]  # 1-based ids
@@ -200,6 +201,12 @@ class Observer:
                 self.ev("EvalF", pt=p, site=site, exc=True)
                 raise exc
             v = self.fun_raw(x, *args)
+            if self.mutate_args:
+                # a user callable that overwrites the array it was handed (the wrapper's own comment allows it)
+                try:
+                    x[...] = 1.2345e30
+                except (ValueError, TypeError):
+                    pass
             if self.in_stencil:
                 self.stencil_pts.append(p)
                 self.ev("EvalS", pt=p, exc=False)
@@ -219,6 +226,11 @@ class Observer:
                 self.ev("EvalG", pt=p, site=self.site[-1], exc=True, nst=0)
                 raise exc
             g = self.jac_raw(x, *args)
+            if self.mutate_args:
+                try:
+                    x[...] = -9.8765e30
+                except (ValueError, TypeError):
+                    pass
             self.gval[p] = np.array(g, dtype=float, copy=True)
             self.ev("EvalG", pt=p, site=self.site[-1], exc=False, nst=0)
             return g
@@ -643,6 +655,7 @@ def finalize(obs: Observer) -> list[dict]:
         k = e["e"]
         o = {kk: vv for kk, vv in e.items() if not kk.startswith("_")}
         if k == "Start":
+            last_acc = None
             cur_start = i
             s = seg_scale[i]
             c = {kk: vv for kk, vv in e["cfg"].items() if not kk.startswith("_")}
@@ -677,6 +690,13 @@ def finalize(obs: Observer) -> list[dict]:
             s = seg_scale[cur_start]
             o["inbox"], o["fixed"] = inbox(e["pt"]), fixok(e["pt"])
             o["fr"] = rk(e["_v"] * s) if not e["exc"] else -1
+            # the point evaluated right after an accepted line search is the new iterate: it is the accepted trial point
+            # up to rounding (a solver may recompute it; it may not move somewhere the search never went)
+            o["near"] = True
+            if e.get("site") == "main" and last_acc is not None:
+                a, b = obs.arr[e["pt"]], obs.arr[last_acc]
+                o["near"] = bool(np.max(np.abs(a - b)) <= 1e-9 * (1.0 + float(np.max(np.abs(b)))))
+            last_acc = None
         elif k == "EvalS":
             o["inbox"], o["fixed"] = inbox(e["pt"]), fixok(e["pt"])
         elif k == "EvalG":
@@ -688,6 +708,7 @@ def finalize(obs: Observer) -> list[dict]:
         elif k == "LSBegin":
             o["fr"] = rk(e["_f0"])
         elif k == "LSEnd":
+            last_acc = e["pt"] if e["ret"] == "step" else None
             if e["ret"] == "step":
                 iter_pts.add(e["pt"])
                 s = seg_scale[cur_start]
